@@ -18,7 +18,12 @@ def scratch(prefix: str = "verif-gen-") -> str:
     return tempfile.mkdtemp(prefix=prefix, dir=os.environ.get("VERIF_SCRATCH", "/tmp"))
 
 
-def run_plugin(plugin: str, out_dir: str, models: Optional[List[str]] = None, hashseed: Optional[str] = None, timeout: int = 900, test_dir: Optional[str] = None, repo: str = REPO, optimise: bool = False) -> Tuple[int, str, float]:
+# a process whose default text encoding is not UTF-8 (a C / POSIX locale without UTF-8 mode; Windows code pages behave alike): every open()
+# without an explicit encoding reads / writes ASCII there
+ASCII_LOCALE_ENV = {"LC_ALL": "C", "LANG": "C", "LANGUAGE": "C", "PYTHONUTF8": "0", "PYTHONCOERCECLOCALE": "0", "PYTHONIOENCODING": "utf-8"}
+
+
+def run_plugin(plugin: str, out_dir: str, models: Optional[List[str]] = None, hashseed: Optional[str] = None, timeout: int = 900, test_dir: Optional[str] = None, repo: str = REPO, optimise: bool = False, ascii_locale: bool = False) -> Tuple[int, str, float]:
     """python -m generator --plugin <plugin> -> (exit status, combined output tail, seconds)."""
     td = test_dir or os.path.join(out_dir, "__tests__")
     os.makedirs(td, exist_ok=True)
@@ -30,6 +35,8 @@ def run_plugin(plugin: str, out_dir: str, models: Optional[List[str]] = None, ha
     env["PYTHONDONTWRITEBYTECODE"] = "1"
     if optimise:
         env["PYTHONOPTIMIZE"] = "1"  # python -O: assert statements are compiled away
+    if ascii_locale:
+        env.update(ASCII_LOCALE_ENV)
     if hashseed is not None:
         env["PYTHONHASHSEED"] = str(hashseed)
     else:
